@@ -49,6 +49,7 @@ func init() {
 			{Name: "stream-chunking-recv", Mode: "enum", Reset: kit.ResetGlobals, Body: func() { chunking(tier == "thorough") }, NeedCounters: []string{"split-inside-length-prefix", "split-inside-payload", "one-byte-reads"}},
 			{Name: "stream-send-sizes", Mode: "enum", Reset: kit.ResetGlobals, Body: sendSizes},
 			{Name: "stream-recv-sizes", Mode: "enum", Reset: kit.ResetGlobals, Body: recvSizes},
+			{Name: "stream-write-fails-then-retransmission", Mode: "enum", Reset: kit.ResetGlobals, Body: writeFailsThenRetransmit, NeedCounters: []string{"retransmitted-intact"}},
 		}
 	})
 	vexplore.Register("C15", func(tier string) []*vexplore.Scenario {
@@ -709,6 +710,85 @@ func recvSizes() {
 		kit.Failf("chunked-unread", "%d bytes were never read", h.Unread())
 	}
 	kit.Observe("%s %s %d %d", scheme, k.Name, sendSz[i], sendSz[j])
+	kit.Must("Close", func() { _ = v.x.S.Close() })
+}
+
+// writeFailsThenRetransmit: a REQ socket / context sends a request from a buffer the application
+// reuses at once; the stream write of that request fails half way (the peer stalls, then resets
+// the connection); buffers of the same pool class are allocated and filled by the application
+// meanwhile; a second peer connects and the request is transmitted again.  What the second peer
+// reads is exactly the frame of the original request: same length, same bytes.
+func writeFailsThenRetransmit() {
+	pickScheme()
+	size := []int{20, 200, 1000, 5000}[kit.ChooseFree(4)]
+	onCtx := kit.ChooseFree(2) == 1
+	k := kinds.ByName("req")
+	v := open(k, -1)
+	if err := v.x.S.SetOption(mangos.OptionRetryTime, 100*time.Millisecond); err != nil {
+		kit.Failf("setup", "RetryTime: %s", kit.ErrName(err))
+	}
+	var snd kit.BytesSender = v.x.S
+	if onCtx {
+		c, err := v.x.S.OpenContext()
+		if err != nil {
+			kit.Failf("setup", "OpenContext: %s", kit.ErrName(err))
+		}
+		snd = c
+	}
+	h1 := v.goodPeer("first")
+	h1.StallWrites(true)
+	body := pat(9, size)
+	sc := kit.Start("Send", func() (interface{}, error) { return nil, kit.SendBytes(snd, body) })
+	kit.Quiesce()
+	if !sc.Done() || sc.Err != nil {
+		kit.Failf("stream-send", "REQ Send of %d bytes to a connected peer: done=%v %s", size, sc.Done(), kit.ErrName(sc.Err))
+	}
+	h1.Reset() // the write in progress fails
+	kit.Quiesce()
+	// the application goes on allocating and filling messages of the same size class
+	var keep []*mangos.Message
+	for i := 0; i < 4; i++ {
+		m := mangos.NewMessage(size + 4)
+		for j := 0; j < size+4; j++ {
+			m.Body = append(m.Body, 0xee)
+		}
+		keep = append(keep, m)
+	}
+	h2 := v.ep.Connect()
+	h2.Feed(spHeader(v.x.S.Info().Peer))
+	kit.Quiesce()
+	kit.Sleep(2 * time.Second) // (the accept loop pauses briefly after the failed connection)
+	kit.Quiesce()
+	if len(h2.Written()) < 8 {
+		kit.Failf("good-peer-not-attached:second", "a well-behaved second peer did not get the SP header")
+	}
+	kit.Sleep(150 * time.Millisecond)
+	kit.Quiesce()
+	got := h2.Written()[8:] // after the SP header
+	n := prefixLen() + 4 + size
+	if len(got) < n {
+		kit.Failf("request-not-retransmitted", "%s: the write of a %d byte request failed, a second peer connected: it was sent %d bytes, a whole frame has %d", scheme, size, len(got), n)
+	}
+	for off := 0; off+n <= len(got); off += n {
+		f := got[off : off+n]
+		want := frame(append(append([]byte{}, f[prefixLen():prefixLen()+4]...), body...))
+		if !bytes.Equal(f, want) {
+			kit.Failf("retransmission-differs", "%s, %d byte request, context=%v: transmission %d after the failed write differs from the request at offset %d of the frame", scheme, size, onCtx, off/n, firstDiff(f, want))
+		}
+	}
+	if len(got)%n != 0 {
+		kit.Failf("retransmission-differs", "%s: %d bytes written to the second peer, not a whole number of %d byte frames", scheme, len(got), n)
+	}
+	for _, m := range keep {
+		for _, c := range m.Body {
+			if c != 0xee {
+				kit.Failf("application-message-overwritten", "a message the application allocated and still owns was overwritten")
+			}
+		}
+		m.Free()
+	}
+	kit.Count("retransmitted-intact")
+	kit.Observe("%s %d ctx=%v frames=%d", scheme, size, onCtx, len(got)/n)
 	kit.Must("Close", func() { _ = v.x.S.Close() })
 }
 
